@@ -17,6 +17,7 @@ import numpy as np
 import jax.numpy as jnp
 
 from harness import core
+from harness.workers.fd_common import in_code_under_test as _icut
 from harness.workers.lowrank_cases import denote
 
 
@@ -92,6 +93,8 @@ def handle(job):
   except core.MachineryError:
     raise
   except Exception as e:
+    if not _icut(e):
+      raise
     bad.append([-1, -1, "exception", f"{type(e).__name__}: {str(e)[:300]}"])
     return {"bad": bad, "worst": worst, "tb": traceback.format_exc()[-1500:], "kind": core.classify_exception(e)}
   return {"bad": bad, "worst": worst}
